@@ -38,6 +38,7 @@ type LoopContract struct {
 	Modifies  []*Clause
 	Ghosts    []*Clause
 	Decreases *Clause
+	Forget    bool // drop quantified hypotheses accumulated before the loop at the cut (the invariants carry what is needed)
 }
 
 type ParamDecl struct {
@@ -91,7 +92,7 @@ func (cl *Clause) LabelString() string {
 	return "[" + strings.Join(cl.Labels, ",") + "]"
 }
 
-var clauseKw = regexp.MustCompile(`^(requires|ensures|invariant|modifies|alias|safety|noOverread|ghostset|ghost|loop|trusted|inline|decreases|assume|fresh|use|candidates|lockdiscipline|guarded|structural)\b(\[[^\]]*\])?\s*(.*)$`)
+var clauseKw = regexp.MustCompile(`^(requires|ensures|invariant|modifies|alias|safety|noOverread|ghostset|ghost|loop|trusted|inline|decreases|assume|fresh|use|candidates|lockdiscipline|guarded|structural|forget)\b(\[[^\]]*\])?\s*(.*)$`)
 
 func (p *Program) parseContractText(pkg, file, text string) error {
 	lines := strings.Split(text, "\n")
@@ -266,6 +267,12 @@ func (p *Program) parseContractText(pkg, file, text string) error {
 			continue
 		case "inline":
 			cur.Inline = true
+			continue
+		case "forget":
+			if curLoop == nil {
+				return fmt.Errorf("%s:%d: forget outside a loop block", file, i+1)
+			}
+			curLoop.Forget = true
 			continue
 		case "safety", "lockdiscipline", "structural":
 			cur.Clauses = append(cur.Clauses, &Clause{Kind: kw, Labels: labels, Text: rest, Line: i + 1, File: file})
